@@ -6,7 +6,8 @@ From PyGql Require Import Valid.ValidOverlap Spec.ValidSpec Proofs.ValidClosePro
      Proofs.ValidGraphProofs Proofs.ValidVarProofs Proofs.ValidPermProofs
      Proofs.ValidUnusedProofs Proofs.ValidSelPermProofs Proofs.ValidUniqueProofs
      Spec.ValidValueSpec Proofs.ValidValueProofs Spec.ValidLocalSpec Proofs.ValidLocalProofs
-     Proofs.ValidVerdictProofs Proofs.ValidPermAllProofs Proofs.ValidSelPermAllProofs Proofs.ValidRenameProofs.
+     Proofs.ValidVerdictProofs Proofs.ValidPermAllProofs Proofs.ValidSelPermAllProofs Proofs.ValidRenameProofs
+     Spec.ValidTypedSpec Proofs.ValidValuesDocProofs Proofs.ValidVarPosProofs Proofs.ValidVerdict25Proofs.
 From Coq Require Import Permutation.
 
 (* The closure iteration (repaired _flatten_fragments, and the reachable set
@@ -198,6 +199,48 @@ Theorem C06_rename_partial : forall rho sigma : str -> str,
    (r12_no_unused_fragments s d = [] <-> r12_no_unused_fragments s d' = [])).
 Proof. exact rename_graph_rules. Qed.
 Print Assumptions C06_rename_partial.
+
+(* ---- the two rules about input positions, at document level ---- *)
+(* ValuesOfCorrectType: silent exactly when every argument of a node met by
+   descent (resp. of a directive) is coercible to the type the schema gives
+   that argument, and every variable default to the variable's type.
+   Hypotheses: schema input fields / arguments and the variable types have
+   (well formed) input types; every directive is known (an unknown directive's
+   arguments are typed against the enclosing field's arguments by the code). *)
+Theorem C06_rule_equiv_ValuesOfCorrectType : forall s,
+  wf_inputs s -> forall d, wf_arg_types s -> wf_var_types s d -> spec_known_directives s d ->
+  (r22_values_of_correct_type s d = [] <-> spec_values_of_correct_type s d).
+Proof. exact r22_equiv. Qed.
+Print Assumptions C06_rule_equiv_ValuesOfCorrectType.
+
+(* VariablesInAllowedPosition: silent exactly when every typed position at
+   which an operation uses a variable -- in its own body or in a fragment
+   reachable from it, through lists and input object fields -- allows the
+   variable's declared type (IsVariableUsageAllowed, with the location default
+   and the variable default). Hypotheses: unique operation names, unique
+   variable names per operation, every directive known. *)
+Theorem C06_rule_equiv_VariablesInAllowedPosition : forall s d,
+  NoDup (op_key_list d) -> spec_unique_variable_names d -> spec_known_directives s d ->
+  (r24_variables_in_allowed_position s d = Ok [] <-> spec_variables_in_allowed_position s d).
+Proof. exact r24_equiv. Qed.
+Print Assumptions C06_rule_equiv_VariablesInAllowedPosition.
+
+(* The verdict of the 25 rules other than OverlappingFieldsCanBeMerged: all
+   silent exactly when the conjunction of the 25 declarative forms holds (the
+   uniqueness and known-directive conditions are members of the conjunction;
+   the remaining hypotheses are about the schema and the variable types). *)
+Theorem C06_verdict_25 : forall fuel s d,
+  wf_inputs s -> wf_arg_types s -> wf_var_types s d ->
+  (validate_rules fuel s d rules_but_overlap = Ok [] <-> valid_spec25 s d).
+Proof. exact verdict25. Qed.
+Print Assumptions C06_verdict_25.
+
+Theorem C06_perm_definitions_25 : forall fuel s d d',
+  wf_inputs s -> wf_arg_types s -> wf_var_types s d ->
+  Permutation (doc_defs d) (doc_defs d') ->
+  (validate_rules fuel s d rules_but_overlap = Ok [] <-> validate_rules fuel s d' rules_but_overlap = Ok []).
+Proof. exact perm_definitions25. Qed.
+Print Assumptions C06_perm_definitions_25.
 
 (* Full statement: the whole verdict is invariant under permutation of the
    definitions. *)
